@@ -2604,7 +2604,11 @@ class VM:
         """Delete property from object."""
         if isinstance(obj, JSObject):
             key_str = to_string(key) if not isinstance(key, str) else key
-            return obj.delete(key_str)
+            obj.delete(key_str)
+            # true unless the property exists and cannot be deleted; objects
+            # have no such properties, and deleting one that is not there
+            # succeeds
+            return True
         return False
 
     def _invoke_getter(self, getter: Any, this_val: JSValue) -> JSValue:
